@@ -6,6 +6,8 @@ wt=/tmp/wt-$id; export CARGO_TARGET_DIR=$wt/target
 cd $wt || exit 3
 git checkout -q -- . && git clean -fdq -e target
 mkdir -p crates/$crate/tests && cp "$demo" crates/$crate/tests/$tname.rs
+# helper modules shipped next to the test (sub-directories of any demo dir of this seed set)
+for d in /tmp/seed-$id/demo*/*/; do [ -d "$d" ] && cp -r "$d" crates/$crate/tests/; done
 echo "--- demo WITHOUT change"; cargo test -p $crate --offline --test $tname 2>&1 | grep -E "^test result|error(\[|:)" | head -5
 git apply /tmp/seed-$id/patch$i.diff || exit 3
 echo "--- demo WITH change"; cargo test -p $crate --offline --test $tname 2>&1 | grep -E "^test result|error(\[|:)" | head -5
